@@ -16,7 +16,8 @@ MODEL_TARGETS = ["C03/Run.vo"]
 PROOF_TARGETS = ["C03/LemmasRC.vo", "C03/LemmasParse.vo", "C03/LemmasTerm.vo", "C03/LemmasInst.vo", "C03/LemmasNull.vo"]
 PROPS = ["C03/Props.v"]
 ALLOWED_AXIOMS = []
-IMPL_TIMEOUT = 30.0        # whole case (a batch of up to SWEEP_CHUNK grammars); parses have their own budget below
+IMPL_TIMEOUT = 60.0        # whole case (a batch of up to SWEEP_CHUNK grammars); constructor and parses have their own budgets
+CTOR_BUDGET = 5.0          # seconds for one constructor call (normal: < 5 ms)
 PARSE_BUDGET = 0.4         # seconds for one parse of a <= 3 token input of a swept grammar (normal: < 1 ms)
 PARSE_BUDGET_FULL = 1.0    # seconds for one parse of a random larger grammar (normal: < 10 ms)
 CONFIRM_BUDGET = 1.5       # a parse that blew its budget is run once more with this budget before it counts as Hang
@@ -181,8 +182,56 @@ def gen_hidden(rng):
             "smart": rng.random() < 0.5}
 
 
+def gen_sentence(rng, g, budget=120, max_len=8):
+    """random derivation with a budget of expansions (llp_common.gen_sentence is exponential on
+    left-recursive / nullable loops); out of budget -> shortest alternatives, then give up"""
+    prods = dict((nt, alts) for nt, alts in g["prods"])
+    out = []
+    left = [budget]
+
+    def expand(sym, depth):
+        if len(out) > max_len or left[0] < -3 * budget or depth > 60:
+            return
+        if sym not in prods:
+            out.append(sym)
+            return
+        left[0] -= 1
+        alts = prods[sym]
+        if left[0] < 0 or depth > 12:
+            alts = sorted(alts, key=len)[:1]
+        for s in rng.choice(alts):
+            expand(s, depth + 1)
+    expand(g["start"], 0)
+    return out[:max_len]
+
+
+def gen_inputs(rng, g, n):
+    terms = g["terms"]
+    seen, out = set(), []
+    for _ in range(n):
+        r = rng.random()
+        if r < 0.55:
+            s = gen_sentence(rng, g)
+        elif r < 0.8:
+            s = gen_sentence(rng, g)
+            if s and rng.random() < 0.5:
+                s[rng.randrange(len(s))] = rng.choice(terms)
+            elif s and rng.random() < 0.5:
+                del s[rng.randrange(len(s))]
+            else:
+                s.insert(rng.randint(0, len(s)), rng.choice(terms))
+        else:
+            s = [rng.choice(terms) for _ in range(rng.randint(0, 6))]
+        inp = [[t, t + (str(rng.randint(0, 99)) if rng.random() < 0.4 else "")] for t in s]
+        k = tuple(map(tuple, inp))
+        if k not in seen:
+            seen.add(k)
+            out.append(inp)
+    return out
+
+
 def _full_case(rng, g, n_inputs):
-    return {"k": "full", "g": g, "inputs": L.gen_inputs(rng, g, n_inputs)}
+    return {"k": "full", "g": g, "inputs": gen_inputs(rng, g, n_inputs)}
 
 
 def gen_cases(rng, tier):
@@ -203,6 +252,8 @@ def gen_cases(rng, tier):
         cases.append(_full_case(rng, gen_hidden(rng), 8))
     for _ in range(2000 if big else 150):
         cases.append(_full_case(rng, L.gen_grammar(rng, allow_leftrec=0.25), 8))
+    # the implementation runner cuts the case list into consecutive shards: spread the (expensive) sweep chunks
+    rng.shuffle(cases)
     return cases
 
 
@@ -260,7 +311,7 @@ def _timed_parse(p, llparser, text, budget):
 
 def _ctor(llparser, terms, prods, start, smart):
     pd = {nt: [tuple(a) if a else None for a in alts] for nt, alts in prods}
-    signal.setitimer(signal.ITIMER_REAL, IMPL_TIMEOUT)
+    signal.setitimer(signal.ITIMER_REAL, CTOR_BUDGET)
     try:
         try:
             return llparser.LLParser(L.tokenizer_str(terms), productions=pd, start_symbol_name=start,
